@@ -58,7 +58,7 @@ PROPS = {
             'PARTIAL claim. Decided: the entry kind "one specific object, no services required" completely (fold step over the '
             'abstract bus); for the kinds with required services the local contracts of AnyObject::{object_created, '
             'object_destroyed, service_destroyed, service_created} and SpecificObjectWithServices::{service_destroyed, '
-            'service_created}; for the two service_created handlers only the SOUNDNESS half: an object is reported only if every '
+            'service_created} and both handle_event dispatch functions; for the two service_created handlers only the SOUNDNESS half: an object is reported only if every '
             'required service is present (vstd specifies HashMap::values() in one direction only: every value is yielded)',
         ],
         undecided_clauses=[
